@@ -21,6 +21,7 @@ BUILT={
  "C18":("totality monitor: every public stage and every error rendering under catch_unwind with a recording panic hook, inside sacrificial workers with CPU-time and address-space budgets (crash kind classified from the exit status); valid, mutated, noisy and deeply nested inputs","4/C18"),
  "C19":("mis-typed twins of valid programs: the type checker and the transformer must both reject, with the same error class at the injected span; data-independent errors may not wait for the transformer; well-typed programs must not be rejected by either","4/C19"),
  "C15":("time-limit x MIP-gap x door sweep with limits placed at fractions of each model's own unlimited solve time; every outcome judged by exact certificate and certified optimum (label Optimal only within the requested gap, Feasible only feasible, errors only when a limit could fire, invalid gaps rejected)","4/C15"),
+ "C16":("differential monitor over the front doors: builder (two construction styles, random call order, macro corpus) vs text (constants in text / through the API) vs PipeRunner vs RoocSolver - identical linear models where trees are identical, equal meaning otherwise (certified aux MILP), equal verdict and optimum over seven solve doors; handle/name/eval read-back against the exact evaluator","4/C16"),
  "C17":("independent CPLEX-LP reader applied to every exported text, exact comparison with the model","4/C17"),
 }
 man={
